@@ -42,6 +42,13 @@ def run(chk):
             continue
         if q.get("glue_error"):
             raise vlib.ToolError("constructor/projection glue is not the identity: " + q["glue_error"])
+        # extended coverage (not part of C01's statement): GdsLibrary::stats() against Stats(lib) of GdsGrammar.tla
+        if "stats" in c and q.get("stats") is not None:
+            chk.cov["stats_compared"] = chk.cov.get("stats_compared", 0) + 1
+            if q["stats"] != c["stats"]:
+                chk.cov["stats_differ"] = chk.cov.get("stats_differ", 0) + 1
+                if chk.cov["stats_differ"] <= 3:
+                    chk.model_drift(f"GdsLibrary::stats() {q['stats']} differs from the specification's Stats(lib) {c['stats']}")
         w = q["write"]
         empty = G.has_empty_string(c["lib"])
         if w["outcome"] == "err":
